@@ -24,7 +24,7 @@ tvars == <<l, tcfg, live, cur, obs, fin>>
 
 IsEvent(e) == l <= Len(TLog) /\ TLog[l].ev = e /\ l' = l + 1
 
-EmptyCfg == [defs |-> <<>>, hasB |-> FALSE, hasA |-> FALSE, b |-> <<>>, m |-> <<>>, a |-> <<>>]
+EmptyCfg == [defs |-> <<>>, db |-> <<>>, da |-> <<>>, hasB |-> FALSE, hasA |-> FALSE, b |-> <<>>, m |-> <<>>, a |-> <<>>]
 NoCur == [rd \in {} |-> Done]
 
 Start(c) == [rd \in GoodReadingsC(c) |-> Enter(SegsOf(c), 1)]
